@@ -9,7 +9,7 @@ from typing import List
 
 from envmodel import kvworld as W
 from harness import _kvcommon as K
-from vk.ob import obligation, PARAM, THOROUGH
+from vk.ob import obligation, PARAM, THOROUGH, real_lru_cache, fresh_module_state
 
 SCN, X = K.CASES[PARAM % len(K.CASES)]
 
@@ -30,6 +30,14 @@ def ob_coherent_after_history(p0: bool, t0: int, g0: List[int], p1: bool, t1: in
     post: _.startswith("ok")
     """
     logging.disable(logging.CRITICAL)
+    real_lru_cache()   # caches in the index code keep their real semantics; cleared per run
+    from nostr_relay.storage import kv as _kv
+    fresh_module_state(_kv)
+    for _ix in _kv.INDEXES.values():
+        for _name in ("to_key", "convert"):
+            _f = getattr(type(_ix), _name, None)
+            if hasattr(_f, "cache_clear"):
+                _f.cache_clear()
     env, e0, e1, last, s1, s2, s3 = K.run(SCN, p0, t0, g0, p1, t1, g1, X)
     err = W.coherence_error(env)
     if err:
